@@ -271,10 +271,13 @@ func discharge(fc *FnCtx, o Oblig, opt Options) OblResult {
 		r.Status = "ok"
 	case res.Status == "unsat":
 		r.Status = "proved"
+	case res.Status == "error":
+		// the solvers rejected the query or disagreed: a fault of the engine, never a verdict
+		r.Status = "engine-error"
 	default:
 		r.Status = "failed"
 	}
-	if !opt.KeepFiles && r.Status != "failed" && r.Status != "vacuous" {
+	if !opt.KeepFiles && r.Status != "failed" && r.Status != "vacuous" && r.Status != "engine-error" {
 		for _, sv := range solvers {
 			os.Remove(fmt.Sprintf("%s/%s.%s.smt2", opt.WorkDir, smt.Ident(q.Name), sv.Name))
 		}
